@@ -973,19 +973,14 @@ def weave(vspec_path, repo, verif_root):
 TAG_RE = re.compile(r"//\s*\[([A-Za-z0-9_ ,]+)\]\s*([A-Za-z0-9_.\-]*)")
 
 def assign_tags(lines, lmap):
-    """a spec line may end with `// [C18 C19] clause.id`; the tag extends to the following untagged
-    lines of the same contiguous spec block until the next tag."""
-    cur = None
+    """a contract line may end with `// [C18 C19] clause.id`; the tag belongs to that line only (a
+    diagnostic is attributed through every line its spans cover)."""
     for i, (t, m) in enumerate(zip(lines, lmap)):
         if m.get("kind") not in ("spec", "prelude", "gen"):
-            cur = None; continue
+            continue
         mm = TAG_RE.search(t)
         if mm:
-            cur = (mm.group(1).replace(",", " ").split(), mm.group(2) or None)
-        if t.strip() == "":
-            cur = None if not mm else cur
-        if cur:
-            m["tags"] = cur[0]; m["clause"] = cur[1]
+            m["tags"] = mm.group(1).replace(",", " ").split(); m["clause"] = mm.group(2) or None
 
 def freeze(work_path, vspec_path, repo, verif_root, check=True):
     """turn an edited, Verus-runnable work file back into a vspec.  Lines carrying the //~ marker are
